@@ -207,6 +207,32 @@ def gen_cases(tier, seed):
             kw['error'] = rng.choice(['L', 'M', 'Q', 'H'])
         cases.append(common.mk(parts, tag='multi', **kw))
     cases += common.big_int_cases(rng, tier)
+    # many tiny segments around the steps of the character count indicator: the cost of every segment grows at versions
+    # 10 and 27, so such a content can fit version 9 and not version 10 (26 / 27) - "fits" is not monotone in the version
+    for (lo, hi) in ((9, 10), (26, 27)):
+        for lv in oracle.LEVELS:
+            found = 0
+            for unit in (['a', '1'], ['a', '12'], ['ab', '1', 'A$'], ['a' * 3, '123'], ['a' * 40, '1'], ['abc' * 30, '12', 'AB']):
+                for p_ in range(2, 400):
+                    parts = (unit * p_)
+                    try:
+                        sp = oracle.spec_parts(parts, None, None)
+                    except Exception:  # noqa: BLE001
+                        break
+                    segs = oracle.segmentations(sp, False)
+                    blo = [oracle.bits_of(lo, c) for c in segs]
+                    bhi = [oracle.bits_of(hi, c) for c in segs]
+                    if any(b is None for b in blo + bhi):
+                        break
+                    if min(blo) > oracle.capacity(lo, lv):
+                        break
+                    if max(blo) <= oracle.capacity(lo, lv) and min(bhi) > oracle.capacity(hi, lv):
+                        found += 1
+                        for kw in ({}, {'version': lo}, {'version': hi}, {'version': hi + 1}):
+                            cases.append(common.mk(list(parts), tag='non-monotone-fit', b=[str(lo), lv, 'segments', 'cci-step'],
+                                                   error=lv, boost_error=False, micro=False, **kw))
+            if found:
+                cases.append(common.mk(['a', '1'], tag='non-monotone-fit-witnesses-%d' % found))
     # degenerate parts at a capacity boundary: an int 0 part, an empty str/bytes part (each still is content /
     # a segment), a one-part list - with the rest of the list exactly filling the version
     for v in oracle.MICRO + [1, 2, 9, 10, 26, 27, 40]:
